@@ -309,6 +309,23 @@ def dask_level(chk, r, tmp):
             except Exception as e:  # noqa: BLE001
                 chk.violation(f"active/dask-{opname}-then-spatial-op-raises-{common.err_kind(e)}", dict(rep, error=repr(e)[:300]))
             chk.count("dask-moves-rows:" + opname)
+        # Dask operations whose description Dask derives by running them on an example frame: concat of collections that agree on the
+        # active column, map_partitions without meta= ; description, partitions and box queries agree on the active column
+        base_pt = dd.from_pandas(dfp, npartitions=3)
+        for opname, res, mult in (("concat", dd.concat([base_pt, base_pt]), 2), ("map_partitions", base_pt.map_partitions(lambda d_: d_.iloc[::-1]), 1)):
+            try:
+                per = [getattr(p_, "_geometry", None) for p_ in dask.compute(*res.to_delayed(), scheduler="synchronous")]
+                for bx in (box, (-2, -2, 2, 2), (7, 7, 9, 9)):
+                    want_b = sorted(list(dfp.index[dfp["pt"].array.intersects_bounds(bx)]) * mult)
+                    got_b = sorted(res.cx[bx[0]:bx[2], bx[1]:bx[3]].compute().index)
+                    tb_ok = [float(x) for x in res.geometry.total_bounds] == [float(x) for x in dfp["pt"].array.total_bounds]
+                    if res.geometry.name != "pt" or any(p_ != "pt" for p_ in per) or got_b != want_b or not tb_ok:
+                        chk.violation(f"active/dask-{opname}-description-and-partitions-disagree", dict(rep, description=res.geometry.name, partitions=per, box=list(bx),
+                                                                                                         cx=got_b, expected=want_b, total_bounds_ok=tb_ok))
+                        break
+            except Exception as e:  # noqa: BLE001
+                chk.violation(f"active/dask-{opname}-raises-{common.err_kind(e)}", dict(rep, error=repr(e)[:300]))
+            chk.count("dask-derived-description:" + opname)
         # history: a frame whose partitions are held objects (persist / from_delayed), a derived frame with another active
         # column is computed, then the original is used again
         for how in ("persist", "from_delayed", "same-compute"):
